@@ -257,3 +257,115 @@ func (f *fn) InlinedGraph() *flow.Graph {
 	g.InlineStraight(straightHelpers(f))
 	return g
 }
+
+// seeThrough follows a local variable that is defined exactly once (`v := e`), never assigned again,
+// never incremented and never has its address taken, to its defining expression – the form a rule
+// that matches expression shapes wants to see when a maintainer named a sub-expression. Variables
+// whose definition mentions another local that is assigned more than once are left alone.
+func seeThrough(f *fn, e ast.Expr) ast.Expr {
+	for depth := 0; depth < 4; depth++ {
+		id, ok := ast.Unparen(e).(*ast.Ident)
+		if !ok {
+			return ast.Unparen(e)
+		}
+		v, ok := f.Info.Uses[id].(*types.Var)
+		if !ok || v.IsField() || v.Parent() == nil || v.Parent() == v.Pkg().Scope() {
+			return id
+		}
+		def := singleDef(f, v)
+		if def == nil {
+			return id
+		}
+		stable := true
+		ast.Inspect(def, func(n ast.Node) bool {
+			if x, ok := n.(*ast.Ident); ok {
+				if o, ok := f.Info.Uses[x].(*types.Var); ok && !o.IsField() && o.Parent() != nil && o.Parent() != o.Pkg().Scope() {
+					if assignCount(f, o) > 1 {
+						stable = false
+					}
+				}
+			}
+			return stable
+		})
+		if !stable {
+			return id
+		}
+		e = def
+	}
+	return ast.Unparen(e)
+}
+
+// assignCount counts definitions/assignments/inc-dec/address-taking of a local variable in f
+// (parameters count one for their binding).
+func assignCount(f *fn, v *types.Var) int {
+	n := 0
+	is := func(e ast.Expr) bool {
+		id, ok := ast.Unparen(e).(*ast.Ident)
+		return ok && (f.Info.Uses[id] == types.Object(v) || f.Info.Defs[id] == types.Object(v))
+	}
+	if f.Decl.Type.Params != nil {
+		for _, fl := range f.Decl.Type.Params.List {
+			for _, nm := range fl.Names {
+				if f.Info.Defs[nm] == types.Object(v) {
+					n++
+				}
+			}
+		}
+	}
+	ast.Inspect(f.Decl.Body, func(x ast.Node) bool {
+		switch y := x.(type) {
+		case *ast.AssignStmt:
+			for _, l := range y.Lhs {
+				if is(l) {
+					n++
+				}
+			}
+		case *ast.IncDecStmt:
+			if is(y.X) {
+				n += 2
+			}
+		case *ast.UnaryExpr:
+			if y.Op == token.AND && is(y.X) {
+				n += 2
+			}
+		case *ast.RangeStmt:
+			if (y.Key != nil && is(y.Key)) || (y.Value != nil && is(y.Value)) {
+				n += 2
+			}
+		case *ast.ValueSpec:
+			for _, nm := range y.Names {
+				if f.Info.Defs[nm] == types.Object(v) {
+					n++
+				}
+			}
+		}
+		return true
+	})
+	return n
+}
+
+// singleDef returns the defining expression of a local variable assigned exactly once.
+func singleDef(f *fn, v *types.Var) ast.Expr {
+	if assignCount(f, v) != 1 {
+		return nil
+	}
+	var def ast.Expr
+	ast.Inspect(f.Decl.Body, func(x ast.Node) bool {
+		switch y := x.(type) {
+		case *ast.AssignStmt:
+			for i, l := range y.Lhs {
+				if id, ok := l.(*ast.Ident); ok && (f.Info.Defs[id] == types.Object(v) || f.Info.Uses[id] == types.Object(v)) && len(y.Lhs) == len(y.Rhs) {
+					def = y.Rhs[i]
+				}
+			}
+		case *ast.ValueSpec:
+			for i, nm := range y.Names {
+				if f.Info.Defs[nm] == types.Object(v) && len(y.Values) == len(y.Names) {
+					def = y.Values[i]
+				}
+			}
+		}
+		return true
+	})
+	return def
+}
